@@ -150,13 +150,14 @@ def expectations(store, path):
 def read_case(tid, path):
     sch, text, flags = TREES[tid]
     return Case(['init A %s %d noerr' % (tid, flags), 'seterr A 1', 'parse_buf A ' + enc(text), 'note lookups',
+                 'errno 34',        # whatever errno an earlier, unrelated conversion left behind (ERANGE): the answer does not depend on it
                  'getopt A ' + enc(path), 'getsec A ' + enc(path), 'get A %s int 0' % enc(path), 'get A %s size 0' % enc(path)])
 
 
 def write_case(tid, path, which):
     sch, text, flags = TREES[tid]
     op = {'set': 'setint A %s 77' % enc(path), 'rm': 'rmsec A %s' % enc(path)}[which]
-    return Case(['init A %s %d' % (tid, flags), 'parse_buf A ' + enc(text), 'note update', op, 'dump A 0'])
+    return Case(['init A %s %d' % (tid, flags), 'parse_buf A ' + enc(text), 'note update', 'errno 34', op, 'dump A 0'])
 
 
 def run_paths(st, drv, tid, paths, label):
